@@ -81,6 +81,11 @@ class Model:
                             'kind': 'obs'})
         self._alpha.append({'name': 'DELIVER', 'line': None,
                             'kind': 'deliver'})
+        # the read-only session itself delivers, by name, into the mailbox
+        # it has EXAMINEd: an ordinary delivery -- the message set grows, but
+        # the selection must not consume the new message's \Recent
+        self._alpha.append({'name': 'SELF-APPEND', 'line': None,
+                            'kind': 'self-append'})
         self._d0 = None
 
     def alphabet(self):
@@ -120,6 +125,8 @@ class Model:
         ctx.extra['in'] = True
         ctx.extra['idle'] = False
         ctx.extra['delivered'] = 0
+        ctx.extra['agent_done'] = False
+        ctx.extra['self_done'] = False
         ctx.steps.clear()
         for sh in ctx.shadows:
             sh.take_problems()
@@ -141,7 +148,13 @@ class Model:
                     out.append(i)
                 continue
             if k == 'deliver':
-                if ctx.extra['delivered'] < 1 and self.box == 'INBOX':
+                if ctx.extra['delivered'] < 2 and self.box == 'INBOX' \
+                        and not ctx.extra['agent_done']:
+                    out.append(i)
+            elif k == 'self-append':
+                if ctx.extra['delivered'] < 2 and self.box == 'INBOX' \
+                        and self.variant == 'examine-inbox' \
+                        and not ctx.extra['self_done']:
                     out.append(i)
             elif k == 'reenter':
                 if not ctx.extra['in']:
@@ -168,6 +181,23 @@ class Model:
             st = ctx.do(ctx.extra['agent'], b'APPEND INBOX ' + lit(msg(6)))
             assert st.cond == 'OK', st.raw
             ctx.extra['delivered'] += 1
+            ctx.extra['agent_done'] = True
+            return out
+        if k == 'self-append':
+            before = persistent(self._mbx(ctx))
+            st = ctx.do(r, b'APPEND INBOX ' + lit(msg(6)))
+            assert st.cond == 'OK', st.raw
+            ctx.extra['delivered'] += 1
+            ctx.extra['self_done'] = True
+            after = persistent(self._mbx(ctx))
+            if after[:len(before) - 1] != before[:-1] or \
+                    len(after) != len(before) + 1:
+                out.append(Violation(
+                    'persistent-changed', f'{self.variant}:SELF-APPEND',
+                    f'APPEND INBOX from the read-only selection changed more '
+                    f'than adding one message: {before} -> {after}'))
+            for sh in ctx.shadows:
+                sh.take_problems()
             return out
         before = persistent(self._mbx(ctx))
         trash_before = persistent(self._mbx(ctx, 'Trash'))
@@ -223,7 +253,8 @@ class Model:
 
     def key(self, ctx):
         return (dict_world_key(ctx.world), ctx.extra['in'],
-                ctx.extra['idle'], ctx.extra['delivered'])
+                ctx.extra['idle'], ctx.extra['delivered'],
+                ctx.extra['agent_done'], ctx.extra['self_done'])
 
     def outcome(self, ctx):
         return ctx.last.summary() if ctx.last else None
